@@ -602,7 +602,7 @@ impl<D: Dispatcher> Conn<D> {
     let inflight_requests = self.inflight_requests.clone();
 
     let current = inflight_requests.get();
-    if current > max_inflight_requests {
+    if current >= max_inflight_requests {
       return Err(
         narwhal_protocol::Error {
           id: None,
